@@ -58,6 +58,8 @@ def scenarios(seed, tier):
 
 
 def check(run):
+    import mc
+    mc.broker_mc(run, "C06")
     scripts = scenarios(run.seed, run.tier)
     nacc, rejected, events, final = B.check_family(run, "C06", scripts, "c06")
     nontriv = sum(1 for s in scripts if sum(1 for st in s["steps"] if st["do"] == "pub") >= 2)
